@@ -21,6 +21,7 @@ func VH_C12_snps_sched() {
 	}
 	base := run()
 	vNumCPU(1 + vChoice("ncpu", vParam("NCPU")+1))
+	vRaceDetect()
 	vSchedExplore(vParam("DEV"))
 	vAssert("C12.snps.output-independent-of-schedule", run() == base)
 }
